@@ -532,7 +532,7 @@ func errnoByName(name string) (int, bool) {
 func init() {
 	register(&mon.CheckSpec{
 		ID: "C12", Level: "exploration",
-		Rule: "cases = byte strings of length 1-64 over four alphabets (path-like printable, all bytes 0x01-0xFF, punctuation-heavy with space = quotes backslash, hex look-alikes), excluding only values whose first or last byte is a quote or whose last byte is a backslash, plus the placeholder values on purpose; each written by an independent kernel-style writer (double quotes iff every byte is 0x21-0x7e and not '\"', else upper-case hex) into 12 record positions (SYSCALL/SECCOMP exe, CWD cwd, PATH name, PROCTITLE with embedded NULs, USER_CMD cmd and cwd inside msg='...', TTY/USER_TTY data, USER_LOGIN acct, EXECVE a0..aN with matching argc, plain key=value records); generated IPv4/IPv6/unix socket addresses (boundary + random addresses, every port class, NUL-terminated paths with trailing garbage, 108-byte paths); and EXHAUSTIVELY every errno of the published table, every (arch code, syscall number) pair of the published tables, the result and unset-id rules. distinct_nontrivial = distinct (position, value) pairs whose value needed hex encoding or contained a quote, '=', space or backslash, plus distinct socket addresses.",
+		Rule: "cases = byte strings of length 1-64 over four alphabets (path-like printable, all bytes 0x01-0xFF, punctuation-heavy with space = quotes backslash, hex look-alikes), excluding only values whose first or last byte is a quote or whose last byte is a backslash, plus the placeholder values on purpose; each written by an independent kernel-style writer (double quotes iff every byte is 0x21-0x7e and not '\"', else upper-case hex) into 12 record positions (SYSCALL/SECCOMP exe, CWD cwd, PATH name, PROCTITLE with embedded NULs, USER_CMD cmd and cwd inside msg='...', TTY/USER_TTY data, USER_LOGIN acct, EXECVE a0..aN with matching argc (N up to 130), plain key=value records); generated IPv4/IPv6/unix socket addresses (boundary + random addresses, every port class, NUL-terminated paths with trailing garbage, 108-byte paths); and EXHAUSTIVELY every errno of the published table, every (arch code, syscall number) pair of the published tables, the result and unset-id rules. distinct_nontrivial = distinct (position, value) pairs whose value needed hex encoding or contained a quote, '=', space or backslash, plus distinct socket addresses.",
 		Assumptions: []string{
 			"the kernel-style writer follows audit_log_untrustedstring / audit_log_n_hex (and audit_encode_nv_string for user-space records)",
 			"EXECVE arguments that are themselves placeholder values are not generated (the statement does not define the record-level result)",
@@ -550,7 +550,11 @@ func init() {
 					k := &c12Case{Pos: pos, Value: v}
 					var args [][]byte
 					if pos == "execve" {
-						for j, m := 0, r.Range(0, 5); j < m; j++ {
+						m := r.Range(0, 5)
+						if r.Chance(1, 12) {
+							m = mon.Pick(r, []int{9, 10, 11, 12, 25, 99, 100, 101, 130}) // argument indices with two and three digits
+						}
+						for j := 0; j < m; j++ {
 							a := c12Value(r)
 							for isPlaceholder(a) {
 								a = c12Value(r)
